@@ -27,6 +27,7 @@ static sector_count_type SpaceRoot_catalog_sectors(const struct SpaceRoot *root)
 #include "space_maybe_gap.inc"
 static void space_maybe_gap_v(sector_count_type last, sector_count_type next)       /* records the call, then the real function */
 { if (SP.mg_calls < 4) SP.mg_calls++; SP.mg_last = last; SP.mg_next = next; space_maybe_gap(last, next); }
+static _Bool verif_exchange_bool(_Bool *obj, _Bool v) { _Bool old = *obj; *obj = v; return old; }     /* std::exchange */
 #include "space_add_initial_gap.inc"
 
 /* ---- the gap after one catalogue entry, and Catalog::map_sectors (what `sector-map` / `extract-unused` are built on) ---- */
